@@ -159,6 +159,23 @@ def check(model: Model, run: Run) -> None:
                 'has the same index, is popped from the previous set and never re-announced (Neighbor.__eq__ ignores routes, so an '
                 'unchanged neighbor with changed route attributes goes through this function)',
             )
+        # a route its watchdog holds back (`watchdog <name> withdraw`: kept in self._watchdog[name]['-'], its markers taken off
+        # at parse time) must not be queued by the reload: a start with the same configuration does not announce it
+        rrl = Loc(model, rr)
+        held_ok = True
+        for c in adds:
+            reads = set()
+            for t_, pol in flat_guards(rr.node, c):
+                reads |= {norm(x) for x in ast.walk(rrl.expanded(t_, depth=4)) if isinstance(x, ast.Attribute)}
+            # ... or the list that is walked was filtered first
+            lp = c
+            pmr = parent_map(rr.node)
+            while lp is not None and not isinstance(lp, ast.For):
+                lp = pmr.get(id(lp))
+            if lp is not None:
+                reads |= {norm(x) for v in ([lp.iter] + (rrl.values(lp.iter.id) if isinstance(lp.iter, ast.Name) else [])) for x in ast.walk(rrl.expanded(v, depth=4)) if isinstance(x, ast.Attribute)}
+            held_ok = held_ok and any(r_.startswith('self._watchdog') for r_ in reads)
+        run.check(held_ok, rr.qualname, 'routes held back by a watchdog are not queued by the reload', rr.loc(adds[0]), 'nothing on the way to add_to_rib looks at self._watchdog: a reload whose new configuration adds `route ... watchdog w withdraw` announces it at once, while a start with that configuration keeps it out until `announce watchdog w`')
         force = [folder.fold(c.args[1], rr.module) if len(c.args) > 1 else next((folder.fold(k.value, rr.module) for k in c.keywords if k.arg == 'force'), None) for c in adds]
         run.check(all(f is True for f in force), rr.qualname, 'new / changed routes are queued with force=True', rr.loc(adds[0]), 'the dedup cache must not swallow the re-announcement')
         gd = [(norm(t_), p) for t_, p in flat_guards(rr.node, dels[0])]
